@@ -1265,6 +1265,12 @@ class Executor:
             idx = z3.Sum(*[z3.If(e < key.e, 1, 0) for e in els]) if els else z3.IntVal(0)
             iv = IntV(idx, "usize")
             return st, EnumV("Result", z3.If(found, 0, 1), {0: [iv], 1: [iv]})
+        m = re.fullmatch(r"(?:(?:std|core)::ops::)?Range::<(\w+)>::contains(::<.*>)?", c)
+        if m and m.group(1) in INT_TYPES:
+            r, v = self.load(st, args[0]), self.load(st, args[1])
+            if isinstance(r, Agg) and len(r.fields) == 2 and isinstance(v, IntV):
+                return st, BoolV(z3.And(r.fields[0].e <= v.e, v.e < r.fields[1].e))
+            return NotImplemented
         m = re.fullmatch(r"(?:(?:std|core)::ops::)?RangeInclusive::<(\w+)>::(new|contains)(::<.*>)?", c)
         if m and m.group(1) in INT_TYPES:
             if m.group(2) == "new":
